@@ -162,6 +162,8 @@ var c05Fixed = [][]string{
 	{`func isq(n) { for i = n { if i * i > n { break }; i } }`, `println(isq(10), isq(17), isq(2))`, `func xcf() { for i = 5 { if i > 2 { continue }; i } }`, `println(xcf())`},
 	{`func alr(a) { a + (a = 5) }`, `println(alr(3))`, `func alr2(a, b) { [a * (a = b), a - (a = a + 1) - a] }`, `println(alr2(3, 4))`},
 	{`println((() => { (for i = 5 { if i == 3 { return i } }) + (for j = 2 { j }) })())`},
+	{`func rop(n) { ["#" * n, [7] * n, 10 - n, 2 << n, 100 / n, 100 % n, 1.5 * n, 1.5 + n, 7 & n, 7 | n, 7 ^ n, 2 * n, "ab" + str(n)] }`, `println(rop(3))`,
+		`func ropl(m) { t = []; for i = 1:4 { t = t + ["#" * i, [7] * i, 10 - i, 2 << i, 100 / i, 100 % i, 1.5 * i, 7 & i] }; t }`, `println(ropl(0))`},
 	{`func cmp3(x) { t = 0; for i = 4 { if 2 == i { t = t + 10 }; if i == x { t = t + 1 }; if x == i { t = t + 100 } }; t }`, `println(cmp3(2), cmp3(7))`},
 }
 
